@@ -293,6 +293,30 @@ class StmtMixin:
         lv = tgt.value
         if not isinstance(lv, (ast.Name, ast.Attribute)):
             raise EngineError(f"subscript store on a temporary: {ast.unparse(tgt)}")
+        if isinstance(lv, ast.Attribute):
+            # obj.attr[key] = value where the class has an assumed `ext:<Class>.<attr>.__setitem__` (the attribute's own content
+            # is not modelled, e.g. the option_spec table of a docutils directive class)
+            handled = None
+            for s2, vals in self.ev_list_top([lv.value, tgt.slice], st.copy()):
+                if isinstance(vals, Raised):
+                    continue
+                base = vals[0]
+                bt = base.t.inner if isinstance(base.t, TOpt) else base.t
+                if isinstance(bt, TRef):
+                    handled = self.reg.funs.get(f"ext:{bt.cls}.{lv.attr}.__setitem__")
+                break
+            if handled is not None:
+                for s2, vals in self.ev_list_top([lv.value, tgt.slice], st):
+                    if isinstance(vals, Raised):
+                        out.append(self._raise(s2, vals))
+                        continue
+                    base = vals[0]
+                    if isinstance(base.t, TOpt):
+                        self.partial(s2, z3.Not(sym.opt_is_none(base)), "AttributeError", tgt)
+                        base = sym.opt_val(base)
+                    for s4, r in self.call_contract(handled, [base, vals[1], v], {}, s2, tgt, params=handled.types.get("__params__")):
+                        out.append(self._raise(s4, r) if isinstance(r, Raised) else (s4, NORMAL))
+                return out
         for s2, vals in self.ev_list_top([_as_load(lv), tgt.slice], st):
             if isinstance(vals, Raised):
                 out.append(self._raise(s2, vals))
